@@ -20,6 +20,7 @@ import KVerif.Drv.C06
 import KVerif.Drv.C08
 import KVerif.Drv.C09
 import KVerif.Drv.C03 -- C03
+import KVerif.Drv.C14v2
 open KVerif.Drv
 
 /-- kvdrv <prop>: one case line in, one `M <model> ## S <spec>` line out. -/
@@ -35,8 +36,6 @@ def dispatch (prop : String) : Option (String → String × String) :=
   | "C17o" => some C17.runOracle
   | "KALL" => some (Kan.run "KAN")
   | "C02" => some C02.run
-  | "C14" => some C14.run
-  | "C14o" => some C14.runOracle
   | "C18" => some C18.run
   | "C07" => some C07o.run
   | "C01" => some (Kan.run "KAN")
@@ -51,11 +50,13 @@ def dispatch (prop : String) : Option (String → String × String) :=
   | "C11" => some C11.run -- C11
   | "C06" => some C06.run
   | "C06o" => some C06.runOracle
-  | "C08" => some C08.run
   | "C08o" => some C08.runOracle
   | "C09" => some C09.run
   | "C09o" => some C09.runOracle
   | "C03" => some C03.run -- C03
+  | "C14" => some fun line => if line.startsWith "KOT" then C14v2.run line else C14.run line
+  | "C14o" => some fun line => if line.startsWith "KOT" then C14v2.runOracle line else C14.runOracle line
+  | "C08" => some fun line => if line.startsWith "KOSX" then Kan.run "KOS" line else C08.run line
   | _ => none
 
 partial def loop (h : IO.FS.Stream) (out : IO.FS.Stream) (f : String → String × String) : IO Unit := do
